@@ -533,6 +533,11 @@ func TestVerifC14(t *testing.T) {
 		[]byte("POST /proxy HTTP/1.0\r\n\r\n"),
 		[]byte("GET /client HTTP/1.1\r\nHost: x\r\nConnection: close\r\nSnowflake-NAT-Type: a\r\nSnowflake-NAT-Type: b\r\n\r\n"),
 		[]byte("POST /client HTTP/1.1\r\nHost: x\r\nContent-Length: 2\r\nConnection: close\r\nSnowflake-NAT-Type: bogus\r\n\r\n{}"),
+		// an announced length far beyond anything that will be sent (the sender then half-closes): answered, not dropped
+		[]byte("POST /client HTTP/1.1\r\nHost: x\r\nContent-Length: 4611686018427387904\r\nConnection: close\r\n\r\n1.0\n{}"),
+		[]byte("POST /proxy HTTP/1.1\r\nHost: x\r\nContent-Length: 4611686018427387904\r\nConnection: close\r\n\r\n{}"),
+		[]byte("POST /answer HTTP/1.1\r\nHost: x\r\nContent-Length: 9223372036854775807\r\nConnection: close\r\n\r\n{}"),
+		[]byte("POST /client HTTP/1.1\r\nHost: x\r\nContent-Length: 1099511627776\r\nConnection: close\r\n\r\n1.0\n{}"),
 	}
 	for i, raw := range rawOddities {
 		i, raw := i, raw
@@ -544,7 +549,7 @@ func TestVerifC14(t *testing.T) {
 			defer conn.Close()
 			conn.SetDeadline(time.Now().Add(8 * time.Second))
 			conn.Write(raw)
-			if tc, ok := conn.(*net.TCPConn); ok && i == 0 {
+			if tc, ok := conn.(*net.TCPConn); ok && (i == 0 || i >= 5) {
 				tc.CloseWrite()
 			}
 			resp, err := http.ReadResponse(bufio.NewReader(conn), &http.Request{Method: "POST"})
@@ -621,6 +626,21 @@ func TestVerifC14(t *testing.T) {
 		c := post("/client", map[string]string{"Snowflake-NAT-Type": "unrestricted"}, []byte(`{"type":"offer","sdp":"flow-b"}`), long)
 		p := <-pc
 		flows[1] = flow{"legacy-matched-timeout", fmt.Sprintf("poll=%d client=%s", p.status, c.canon()), "poll=200 client=504 -"}
+	}()
+	fw.Add(1)
+	go func() {
+		// (c') while the polls of flows c and d are waiting, a client names a well-formed fingerprint that is in no
+		// bridge list: it is refused on its own; the waiting polls are not touched (they still get their answers below)
+		defer fw.Done()
+		time.Sleep(1300 * time.Millisecond)
+		for _, natv := range []string{"unrestricted", "restricted"} {
+			vj, _ := json.Marshal(map[string]string{"offer": "flow-unknown-bridge", "nat": natv, "fingerprint": "00000000000000000000000000000000000000A1"})
+			c := post("/client", nil, append([]byte("1.0\n"), vj...), long)
+			r.Case("flow/unknown-bridge-client-while-polls-wait", fmt.Sprintf("nat=%s -> %s", natv, c.canon()), true)
+			if c.dropped {
+				r.OracleFail("connection-dropped-without-response:unknown-bridge", "client naming an unknown bridge, nat="+natv, c.err, "every HTTP request must receive a response")
+			}
+		}
 	}()
 	go func() {
 		defer fw.Done()
